@@ -317,15 +317,318 @@ def torsion_cases(ctx: Ctx, n):
                 break
 
 
+# ---------------------------------------------------------------- placement through the pipeline
+# The first sentence of the property is about PLACING an atom the way pdb2pqr does it: Biomolecule.repair_heavy
+# (missing heavy atoms) and Biomolecule.add_hydrogens (hydrogens that are not part of a tetrahedral XH3 group)
+# gather up to three present neighbours of the missing atom, their template counterparts, and call
+# quatfit.find_coordinates. The stream below makes every atom such a placement can use -- the heavy atoms of one
+# interior residue and the peptide neighbours C(i-1), N(i+1) -- an exact rigid image R*template + t of the
+# topology template, omits k side-chain heavy atoms from the input, runs the real steps of main.non_trivial
+# (is_repairable, repair_heavy, update_ss_bridges, add_hydrogens) and compares every placed atom with
+# R*template + t. The expected position is computed from the topology data files (a definitions object that is
+# never handed to the implementation) and the R, t drawn here.
+
+_oracle_defs = None
+_repair_templates = {}
+
+
+def oracle_defs():
+    global _oracle_defs
+    if _oracle_defs is None:
+        from pdb2pqr import io as pio
+
+        _oracle_defs = pio.get_definitions()
+    return _oracle_defs
+
+
+_impl_defs = None
+
+
+def impl_defs():
+    """the definitions object handed to the implementation: loaded once per process, as in a pdb2pqr run (parsing the
+    topology files takes longer than a whole case); never read by the oracle"""
+    global _impl_defs
+    if _impl_defs is None:
+        from pdb2pqr import io as pio
+
+        _impl_defs = pio.get_definitions()
+    return _impl_defs
+
+
+def repair_template(resname):
+    """(atom names in template order, {name: template xyz} incl. the peptide neighbours "C-1"/"N+1" of the PEPTIDE
+    patch, {name: bonded names}) from the topology data files"""
+    if resname not in _repair_templates:
+        d = oracle_defs()
+        ref = d.map[resname]
+        order = list(ref.map)
+        coords = {an: [float(a.x), float(a.y), float(a.z)] for an, a in ref.map.items()}
+        bonds = {an: list(a.bonds) for an, a in ref.map.items()}
+        for an, a in d.patches["PEPTIDE"].map.items():
+            coords[an] = [float(a.x), float(a.y), float(a.z)]
+        _repair_templates[resname] = (order, coords, bonds)
+    return _repair_templates[resname]
+
+
+def side_chain(resname):
+    order, _c, _b = repair_template(resname)
+    return [a for a in order if not a.startswith("H") and a not in G.BACKBONE]
+
+
+def quatfit_hydrogens(resname):
+    """hydrogens of the template that add_hydrogens places with the three-point superposition: all but those of
+    a tetrahedral XH3 group (Amino.rebuild_tetrahedral builds those from two atoms / tetrahedral geometry)"""
+    order, _c, bonds = repair_template(resname)
+    out = []
+    for h in order:
+        if not h.startswith("H") or not bonds[h]:
+            continue
+        heavy = bonds[h][0]
+        if sum(1 for b in bonds[heavy] if b.startswith("H")) == 3:
+            continue
+        out.append(h)
+    return out
+
+
+REPAIR_TYPES = [n for n in G.AA3 if n != "GLY"]
+
+
+def gen_repair_case(rng: random.Random):
+    """one input of the pipeline stream: a peptide window (text), the interior residue that becomes the rigid
+    image of its template, R, t, and the side-chain heavy atoms left out of the input"""
+    for _ in range(400):
+        resname = rng.choice(REPAIR_TYPES)
+        sc = side_chain(resname)
+        mode = rng.choice(["suffix"] * 7 + ["subset"] * 2 + ["suffix+O"])
+        k = rng.randint(1, len(sc))
+        # main.is_repairable refuses inputs that lack more than a tenth of their heavy atoms: longer windows for larger k
+        nres = max(3, min(14, (11 * (k + 2)) // 7 + 2))
+        try:
+            _f, res = G.window(rng, nres, must_have=resname)
+        except RuntimeError:
+            continue
+        order, tc, _b = repair_template(resname)
+        idx = [i for i in range(1, len(res) - 1) if res[i][0].resn == resname and sorted(a.name for a in res[i]) == sorted(G.BACKBONE + sc)]
+        if not idx:
+            continue
+        i = rng.choice(idx)
+        # is_repairable: (atoms missing) / (heavy atoms present) <= 0.1, where the OXT of the C-terminus counts as missing
+        nheavy = sum(len(r) for r in res)
+        extra = 1 if mode == "suffix+O" else 0
+        kmax = (nheavy - 11 * extra - 10) // 11
+        if kmax < 1:
+            continue
+        k = min(k, kmax)
+        if mode == "subset":
+            chosen = set(rng.sample(sc, k))
+            removed = [a for a in sc if a in chosen]
+        else:
+            removed = sc[len(sc) - k :]
+        if mode == "suffix+O":
+            removed = ["O"] + removed
+        res[i] = [a for a in res[i] if a.name not in removed]
+        G.set_chain(res, "A", 1)
+        off = 10 ** rng.choice([0, 1, 1, 2, 2, 3, 4])
+        return {
+            "stream": "repair",
+            "pdb": G.to_pdb([res]),
+            "resseq": i + 1,
+            "resname": resname,
+            "removed": removed,
+            "k": len(removed),
+            "mode": mode,
+            "R": G.rotation(rng),
+            "t": [rng.uniform(-off, off) for _ in range(3)],
+            "off": off,
+        }
+    raise RuntimeError("no window for the repair stream")
+
+
+def run_repair(case, motion=None):
+    """the real steps on the stored input. Returns (status, {name: xyz} rebuilt heavy atoms, {name: xyz} hydrogens
+    placed by superposition); `motion` = (R2, t2) applied to the whole structure before anything is placed"""
+    import os
+    import tempfile
+
+    from pdb2pqr import io as pio
+    from pdb2pqr import main as pmain
+
+    G.quiet()
+    fd, path = tempfile.mkstemp(suffix=".pdb", prefix="c15p_")
+    with os.fdopen(fd, "w") as f:
+        f.write(case["pdb"])
+    try:
+        pdblist, _ = pio.get_molecule(path)
+    finally:
+        os.unlink(path)
+    bio, _d, _l = pmain.setup_molecule(pdblist, impl_defs(), None)
+    bio.set_termini()
+    bio.update_bonds()
+    residues = list(bio.residues)
+    pos = next(j for j, r in enumerate(residues) if r.res_seq == case["resseq"])
+    prev, target, nxt = residues[pos - 1], residues[pos], residues[pos + 1]
+    _order, tc, _b = repair_template(case["resname"])
+    R, t = case["R"], case["t"]
+
+    def put(atom, xyz):
+        atom.x, atom.y, atom.z = float(xyz[0]), float(xyz[1]), float(xyz[2])
+
+    for a in target.atoms:
+        put(a, rigid_image(R, t, tc[a.name]))
+    # the peptide neighbours the placement may use: C of the previous residue at the image of "C-1", N of the next one
+    # at the image of "N+1" (the neighbouring residues are translated as a whole)
+    for other, name, tname in ((prev, "C", "C-1"), (nxt, "N", "N+1")):
+        anchor = other.get_atom(name)
+        img = rigid_image(R, t, tc[tname])
+        d = sub(img, [anchor.x, anchor.y, anchor.z])
+        for a in other.atoms:
+            put(a, [a.x + d[0], a.y + d[1], a.z + d[2]])
+        put(anchor, img)
+    if motion is not None:
+        R2, t2 = motion
+        for r in residues:
+            for a in r.atoms:
+                put(a, rigid_image(R2, t2, [a.x, a.y, a.z]))
+    try:
+        repairable = pmain.is_repairable(bio, False)
+    except ValueError:
+        return "refused(no heavy atoms)", {}, {}
+    if not repairable:
+        # main.non_trivial does not call repair_heavy then (more than a tenth of the heavy atoms missing)
+        return "pipeline-does-not-repair(too many atoms missing)", {}, {}
+    try:
+        bio.repair_heavy()
+    except ValueError:
+        return "cannot-rebuild", {}, {}
+    heavy = {n: list(map(float, target.get_atom(n).coords)) for n in case["removed"] if target.has_atom(n)}
+    bio.update_ss_bridges()
+    bio.add_hydrogens()
+    hyd = {h: list(map(float, target.get_atom(h).coords)) for h in quatfit_hydrogens(case["resname"]) if target.has_atom(h)}
+    return "ok", heavy, hyd
+
+
+def repair_tol(case, motion=None):
+    off = case["off"]
+    if motion is not None:
+        off = max(off, max(abs(x) for x in motion[1]))
+    return 1e-6 * max(1.0, off / 1e3)  # as for the direct calls: absolute 1e-6 A up to 1000 A from the origin
+
+
+def repair_deviations(case, motion=None):
+    """(status, [(routine, atom, deviation from the rigid image of the template position, placed xyz)])"""
+    status, heavy, hyd = run_repair(case, motion)
+    _order, tc, _b = repair_template(case["resname"])
+    out = []
+    for routine, placed in (("repair_heavy", heavy), ("add_hydrogens", hyd)):
+        for name, got in placed.items():
+            want = rigid_image(case["R"], case["t"], tc[name])
+            if motion is not None:
+                want = rigid_image(motion[0], motion[1], want)
+            out.append((routine, name, norm(sub(got, want)), got))
+    return status, out
+
+
+def repair_cases(ctx: Ctx, n):
+    rng = ctx.rng
+    done = 0
+    attempts = 0
+    while done < n and attempts < 3 * n:
+        attempts += 1
+        case = gen_repair_case(rng)
+        status, devs = repair_deviations(case)
+        ctx.evaluations += 1
+        if status != "ok":
+            ctx.count("repair-oracle", "skipped: " + status)
+            continue
+        done += 1
+        resname, k = case["resname"], case["k"]
+        ctx.distinct.add(("repair", resname, k, case["mode"], int(math.log10(case["off"]))))
+        ctx.count("repair-missing-heavy-atoms-k", k)
+        ctx.count("repair-residues", resname)
+        ctx.count("repair-mode", case["mode"])
+        ctx.count("repair-placed-atoms", "heavy", sum(1 for d in devs if d[0] == "repair_heavy"))
+        ctx.count("repair-placed-atoms", "hydrogen (three-point superposition)", sum(1 for d in devs if d[0] == "add_hydrogens"))
+        if done == 1:
+            ctx.sample({"routine": "repair_heavy+add_hydrogens", "residue": f"{resname} {case['resseq']}", "left out": case["removed"], "offset scale": case["off"]})
+        tol = repair_tol(case)
+        verdict = "holds"
+        lost = [a for a in case["removed"] if a not in {d[1] for d in devs}]
+        if lost:
+            verdict = "atom-not-rebuilt"
+            ctx.violate({"routine": "repair_heavy", "class": resname, "kind": verdict}, f"{resname} {case['resseq']} without {case['removed']}: {lost} not rebuilt", dict(case))
+        else:
+            for j, (routine, name, err, _got) in enumerate(devs):
+                if not (err <= tol):
+                    verdict = "inexact"
+                    nth = f"rebuilt heavy atom number {case['removed'].index(name) + 1} of {k}" if routine == "repair_heavy" else "hydrogen"
+                    ctx.violate(
+                        {"routine": routine, "class": resname, "kind": verdict},
+                        f"{resname} {case['resseq']} (exact rigid image of its template, offset scale {case['off']}) without {case['removed']}: {name} ({nth}) is placed {err:.3e} A from R*template+t",
+                        dict(case),
+                    )
+                    break
+        ctx.count("repair-oracle", verdict)
+        # the result moves with the structure
+        if done % 3 == 0:
+            off2 = 10 ** rng.choice([1, 2, 3, 4])
+            motion = (G.rotation(rng), [rng.uniform(-off2, off2) for _ in range(3)])
+            status2, devs2 = repair_deviations(case, motion)
+            ctx.evaluations += 1
+            tol2 = repair_tol(case, motion)
+            first = {(d[0], d[1]): d[3] for d in devs}
+            bad = None
+            if status2 != status or {(d[0], d[1]) for d in devs2} != set(first):
+                bad = ("different atoms placed", "not-equivariant", "repair_heavy")
+            else:
+                for routine, name, err, got in devs2:
+                    moved = rigid_image(motion[0], motion[1], first[(routine, name)])
+                    if not (norm(sub(got, moved)) <= 10 * tol2):
+                        bad = (f"{name} does not move with the structure ({norm(sub(got, moved)):.3e} A)", "not-equivariant", routine)
+                        break
+                    if not (err <= tol2):
+                        bad = (f"{name} is placed {err:.3e} A from the moved R*template+t", "inexact", routine)
+                        break
+            ctx.count("repair-equivariance", "holds" if bad is None else bad[1])
+            if bad is not None:
+                rp = dict(case)
+                rp["R2"], rp["t2"] = motion
+                ctx.violate({"routine": bad[2], "class": resname, "kind": bad[1] + "(moved input)"}, f"{resname} {case['resseq']} without {case['removed']} after a further rigid motion of the whole input: {bad[0]}", rp)
+
+
+def replay_repair(rp) -> bool:
+    bad = False
+    motions = [None] + ([(rp["R2"], rp["t2"])] if "R2" in rp else [])
+    first = None
+    for motion in motions:
+        status, devs = repair_deviations(rp, motion)
+        tol = repair_tol(rp, motion)
+        print(f"{rp['resname']} {rp['resseq']} without {rp['removed']}{' (whole input moved)' if motion else ''}: {status}; tolerance {tol:.1e} A")
+        for routine, name, err, got in devs:
+            print(f"  {routine:14s} {name:4s} {err:.3e} A from R*template+t{'   <-- ' if err > tol else ''}")
+            bad = bad or not (err <= tol)
+            if motion is not None and first is not None and (routine, name) in first:
+                bad = bad or not (norm(sub(got, rigid_image(motion[0], motion[1], first[(routine, name)]))) <= 10 * tol)
+        if status == "ok" and any(a not in {d[1] for d in devs} for a in rp["removed"]):
+            bad = True
+        if motion is None:
+            first = {(d[0], d[1]): d[3] for d in devs}
+    return bad
+
+
 def run(ctx: Ctx):
     ctx.extra["rule"] = (
         "find_coordinates: template triples of the real topology (every atom of every amino acid with three bonded neighbours) and random 3-5 point sets, rigid images under random rotations and offsets 1..1e5 A, "
         "near-collinear sets; qchichange/dihedral: random axes, angles in (-720,720), special angles; set_dihedral_angle / rotate_tetrahedral on real residues of peptide windows; "
+        "placement through the pipeline: an interior residue of a peptide window (19 residue types) whose heavy atoms and peptide neighbours C(i-1), N(i+1) are an exact rigid image "
+        "(random proper rotation, offsets 1..1e4 A) of its topology template, k = 1..all side-chain heavy atoms left out (suffixes of the side chain, random subsets, with the carbonyl O), "
+        "real is_repairable / repair_heavy / update_ss_bridges / add_hydrogens, every rebuilt heavy atom and every hydrogen placed by the three-point superposition compared with R*template+t, "
+        "every third case again after a further rigid motion of the whole input; "
         "a case is (routine, configuration class, size / decade); distinct counts distinct tuples"
     )
     fit_cases(ctx, ctx.scale(1500, 200000))
     chi_cases(ctx, ctx.scale(800, 100000))
     torsion_cases(ctx, ctx.scale(120, 5000))
+    repair_cases(ctx, ctx.scale(400, 8000))
 
 
 def replay_torsion(rp) -> bool:
@@ -379,6 +682,8 @@ def replay(ctx: Ctx, data: dict) -> bool:
     from pdb2pqr import quatfit
 
     rp = data.get("replay", data)
+    if rp.get("stream") == "repair":
+        return replay_repair(rp)
     if "angles" in rp:
         return replay_torsion(rp)
     if "defs" in rp:
